@@ -8,8 +8,10 @@ and with the rebuilt content over-approximated as ANY sequence of segments (noth
   * window accounting of its end update (D1) and exact tiling of the shield + content it writes (D2);
   * the three entry points use the one normalising iterator: in-place normalize(), Path == / cmp / hash, and normalized() all go
     through PathImpl::normalized_segments or the symbolic push built on the same dot-segment rules (call-graph rule).
-Not decided: that the sequence is the RFC 3986 §5.2.4 / Errata 4547 sequence, idempotence, agreement of the copy and the iterator
-on values, the spill paths of the inline buffers — all functions of unbounded run-time stacks."""
+  * the sequence clause (normstep.py), the join rule of in-place normalize, and the fold of the normalised copy (symstep.py).
+Not decided: idempotence and agreement of the copy and the iterator as VALUES (the steps agree case by case; the composition is an
+argument, see DESIGN.md §10.13-10.15), the spill paths of the inline buffers."""
+import re
 from .. import facts, mir, sites, pathclosure, window, pathmut
 from ..symex import sym, Aff
 from ..igraph import IGraph
@@ -126,9 +128,23 @@ def main(run):
     run.cov['sequence_step_iterations_checked'] = nst.get('returns', 0)
     nb = P.bodies.get(normstep.FN)
     for pr in probs:
-        run.violation(f'sequence|{pr[:90]}', f'{P.where(nb) if nb else "path.rs"} NormalizedSegmentsImpl::new: {pr}')
+        key = re.sub(r'^\S+:\d+ ', '', pr)      # the key carries no line number
+        run.violation(f'sequence|{key[:90]}', f'{P.where(nb) if nb else "path.rs"} NormalizedSegmentsImpl::new: {pr}')
     run.floor('sequence_step_cases', 5, 'abstract cases (stack top x relative) of the normalising step')
     join_loop(run, P)
+    # the normalised COPY: PathImpl::normalized folds segments() of self through symbolic_push (dispatch decided under C10) into the EMPTY
+    # path of the kind of self, then ends it with an empty segment iff the last segment was "." / ".." and something was kept
+    from .. import symstep
+    probs, cst = symstep.analyse_append(P, symstep.COPY, True)
+    run.cov['copy_fold_paths'] = cst.get('iteration_paths', 0) + cst.get('tail_paths', 0) + cst.get('start_paths', 0)
+    cb = P.bodies.get(symstep.COPY)
+    for pr in probs:
+        run.violation(f'copy|{pr[:90]}', f'{P.where(cb) if cb else "path.rs"} PathImpl::normalized: {pr}')
+    run.floor('copy_fold_paths', 5, 'paths of PathImpl::normalized (start, one iteration, tail) checked against the fold')
+    probs, sst = symstep.analyse_push(P)
+    sb = P.bodies.get(symstep.FN)
+    for pr in probs:
+        run.violation(f'copy|step|{pr[:90]}', f'{P.where(sb) if sb else "path_mut.rs"} PathMutImpl::symbolic_push (the step of the normalised copy): {pr}')
     run.floor('path_closure_checks', 20, 'normalize paths whose result language was checked')
     run.floor('kind_checks', 20, 'absolute/relative preservation checks')
     return run.finish('model_checking', {
